@@ -195,17 +195,20 @@ def shards(tier, seed=1):
     from vlib.pbt import rot
 
     q = tier == "quick"
-    n = 1 if q else 8
     out = []
-    sk = [(op, shapes) for op in ("V", "K", "Kp") for shapes in ((["DP0"], ["P1", "DP1"]), (["P1", "DP1"], ["DP0"]))]
-    for op, shapes in (rot(sk, seed, 2) if q else sk):
-        out.append({"check": "smallk", "op": op, "tk": shapes[0], "dk": shapes[1], "examples": 12 * n, "budget_s": 240 * n})
-    mo = ["V", "K", "Kp", "W", "PV", "PK"]
-    for op in (rot(mo, seed, 2) if q else mo):
-        out.append({"check": "modified", "op": op, "examples": 8 * n, "budget_s": 240 * n})
-    sy = [("helmholtz", "V"), ("helmholtz", "W"), ("helmholtz", "KKp"), ("laplace", "KKp"), ("modified", "W")]
-    for fam, op in (rot(sy, seed, 1) if q else sy):
-        out.append({"check": "symmetry", "fam": fam, "op": op, "examples": 4 * n, "budget_s": 240 * n})
+    shp = ((["DP0"], ["P1", "DP1"]), (["P1", "DP1"], ["DP0"]))
+    if q:
+        # every kernel / dispatch path in every run, the shape-set pairing rotates with the seed (shards are packed by the runner)
+        sk = [(op, shp[(seed + i) % 2]) for i, op in enumerate(("V", "K", "Kp"))]
+    else:
+        sk = [(op, shapes) for op in ("V", "K", "Kp") for shapes in shp]
+    for op, shapes in sk:
+        out.append({"check": "smallk", "op": op, "tk": shapes[0], "dk": shapes[1], "examples": 10 if q else 96, "budget_s": 120 if q else 1920})
+    for op in ["V", "PV", "K", "PK", "Kp", "W"]:
+        out.append({"check": "modified", "op": op, "examples": 8 if q else 64, "budget_s": 120 if q else 1920})
+    sy = [("helmholtz", "V"), ("helmholtz", "W"), ("modified", "W"), ("laplace", "KKp")]
+    for fam, op in ([("helmholtz", "KKp")] + rot(sy, seed, 1) if q else [("helmholtz", "KKp")] + sy):
+        out.append({"check": "symmetry", "fam": fam, "op": op, "examples": 4 if q else 32, "budget_s": 150 if q else 1920})
     return out
 
 
